@@ -55,6 +55,10 @@ func hfText(f hfFrag, p int) string {
 		return "Document Title Line"
 	case 8:
 		return "Overview"
+	case 11:
+		return "Annual Report 2024"
+	case 12:
+		return "Chapter Overview 2024"
 	}
 	if f.Key >= 200 && f.Key < 210 {
 		return fmt.Sprintf("%d", f.Key-200)
